@@ -129,6 +129,8 @@ class Gen:
         d = {"op": "leaf", "id": self.leaf_id(), "vt": vt, "blocking": blocking, "sd": sd, "aff": aff}
         if vt == "val" and self.rng.random() < 0.25:
             d["mv"] = 1   # value type whose move constructor is a throw point (vf::mval)
+        if vt == "val" and self.rng.random() < 0.25:
+            d["inop"] = 1   # the value lives in the leaf's operation state (receivers must take it before destroying the op)
         return d
 
     def with_errors(self, spec, vt):
@@ -282,9 +284,13 @@ def cpp(s):
     if op == "leaf":
         vt = ("vf::mval" if s.get("mv") else "vf::val") if s["vt"] == "val" else "void"
         b = "always_inline" if s.get("blocking") == "inline" else "maybe"
+        extra = ""
+        if s.get("inop"):
+            extra = ", false, true"
+        elif s.get("lvv"):
+            extra = ", true"
         return "vf::leaf<%s, unifex::_block::_enum::%s, %s, %s, false%s>{%d}" % (
-            vt, b, "true" if s.get("sd", 1) else "false", "true" if s.get("aff") else "false",
-            ", true" if s.get("lvv") else "", s["id"])
+            vt, b, "true" if s.get("sd", 1) else "false", "true" if s.get("aff") else "false", extra, s["id"])
     if op == "just":
         return U + "just(%s)" % ", ".join("vf::val{%d}" % i for i in s["vals"])
     if op == "just_error":
